@@ -509,7 +509,8 @@ def EncFrameHeader.serialize (h : EncFrameHeader) : Except Fault (List Nat) :=
         | .ok fb => .ok (leBytes 4 Gen.magicNum ++ [d] ++ wb ++ db ++ fb)
 
 /-- the header `FrameCompressor::compress` builds (`Gen.compressHeaderShape`); `hash` = the cargo
-feature, `w` = `Matcher::window_size()` -/
+feature, `w` = the `window_size` field: `Matcher::window_size()`, raised to `MAX_BLOCK_SIZE` since the
+repair of F13 (`Gen.frameDeclaresAtLeastMaxBlock`; `Model.Enc.headerWindow`) -/
 def compressFrameHeader (hash : Bool) (w : Nat) : EncFrameHeader :=
   { fcs := none, singleSegment := false, checksum := hash, dictId := none, windowSize := some w }
 
